@@ -1,12 +1,17 @@
 (* tracker: C12 C13 C14 C15.  Attribute values are opaque tokens (OCaml strings; the model is polymorphic in them).
 
-   trk_run <ordered 0|1> <ttl N|int> <nattrs> <op>...
-     op:  U,<now>,<mmsi>,<ts|N>,<attrs>     attrs = '.'-joined: '-' absent, 'n' present-None, otherwise a token; '_' = none
-          C,<now>     P,<mmsi>     A,<c|u|d>,<cb>     D,<c|u|d>,<cb>
+   trk_run <ordered 0|1> <ttl N|int> <nattrs> [B=<rules>] <op>...
+     B=   (optional) what the callbacks do, '+'-joined rules <cb>:<c|u|d>:<mmsi|*>:<exception class>: calling callback
+          <cb> for that event with a track of that MMSI raises the exception (first matching rule; no rule: it returns)
+     op:  U,<now>,<mmsi>,<ts|N>,<attrs>[,<order>]   attrs = '.'-joined: '-' absent, 'n' present-None, otherwise a token; '_' = none
+          C,<now>[,<order>]     P,<mmsi>     A,<c|u|d>,<cb>     D,<c|u|d>,<cb>
+          <order> = '+'-joined MMSIs ('_' = none): the iteration order of the set `to_be_deleted` of this operation's
+                    cleanup() -- the MMSIs named come first, in this order (Model/Tracker.v trk_iter_by_hint)
           L,<n>  (query n_latest_tracks)     G,<mmsi>  (query get_track)
      reply: one item per op joined by '|':
-          op:     E=<exn|->;C=<calls>;D=<deliveries>;O=<oldest|N>;T=<tracks>
+          op:     E=<exn|->;C=<calls>;D=<deliveries>;R=<returned track|N>;O=<oldest|N>;T=<tracks>
           L:      L=<tracks>          G:  G=<track|N>
+     The model run is Model/Tracker.v trkc_step (callbacks may raise); without B= and <order> it is the run of trk_step.
      track = mmsi/lu/attrs ('.'-joined, 'n' = None); calls = ','-joined ev~track; deliveries = ','-joined cb~ev~track
    trk_spec <ordered> <nattrs> <mmsis ','-joined> <sop>...      (C12: the log specification, expiry given)
      sop: U,<now>,<mmsi>,<ts|N>,<attrs>,<expired '+'-joined|_>   C,<now>,<expired>   P,<mmsi>   O
@@ -33,16 +38,32 @@ let str_attrs l = if l = [] then "_" else String.concat "." (List.map (function 
 let str_track tr = string_of_z tr.tr_mmsi ^ "/" ^ string_of_z tr.tr_lu ^ "/" ^ str_attrs tr.tr_attrs
 let str_tracks l = if l = [] then "_" else String.concat "," (List.map str_track l)
 
-type item = Op of ostring trk_op | QLatest of z | QGet of z
+type item = Op of ostring trk_op * z list | QLatest of z | QGet of z
+
+let zplus s = List.map z_of_string (split '+' s)
+
+let pyexn_of = function
+  | "ValueError" -> ValueError | "UnicodeDecodeError" -> UnicodeDecodeError | "IndexError" -> IndexError
+  | "TypeError" -> TypeError | "KeyError" -> KeyError | "OverflowError" -> OverflowError
+  | "AttributeError" -> AttributeError | "ZeroDivisionError" -> ZeroDivisionError
+  | s -> failwith ("exception class outside the model: " ^ s)
+
+let rule_of (s : ostring) =
+  match String.split_on_char ':' s with
+  | [cb; ev; m; x] -> (((z_of_string cb, ev_of ev), (if m = "*" then None else Some (z_of_string m))), Py (pyexn_of x))
+  | _ -> failwith ("bad rule " ^ s)
 
 let item_of (s : ostring) : item =
+  let upd now mmsi ts attrs =
+    OpUpdate (z_of_string now, { m_mmsi = z_of_string mmsi; m_attrs = List.map mattr_of (split '.' attrs) }, optz ts) in
   match String.split_on_char ',' s with
-  | ["U"; now; mmsi; ts; attrs] ->
-    Op (OpUpdate (z_of_string now, { m_mmsi = z_of_string mmsi; m_attrs = List.map mattr_of (split '.' attrs) }, optz ts))
-  | ["C"; now] -> Op (OpCleanup (z_of_string now))
-  | ["P"; mmsi] -> Op (OpPop (z_of_string mmsi))
-  | ["A"; ev; cb] -> Op (OpAttach (ev_of ev, z_of_string cb))
-  | ["D"; ev; cb] -> Op (OpDetach (ev_of ev, z_of_string cb))
+  | ["U"; now; mmsi; ts; attrs] -> Op (upd now mmsi ts attrs, [])
+  | ["U"; now; mmsi; ts; attrs; order] -> Op (upd now mmsi ts attrs, zplus order)
+  | ["C"; now] -> Op (OpCleanup (z_of_string now), [])
+  | ["C"; now; order] -> Op (OpCleanup (z_of_string now), zplus order)
+  | ["P"; mmsi] -> Op (OpPop (z_of_string mmsi), [])
+  | ["A"; ev; cb] -> Op (OpAttach (ev_of ev, z_of_string cb), [])
+  | ["D"; ev; cb] -> Op (OpDetach (ev_of ev, z_of_string cb), [])
   | ["L"; n] -> QLatest (z_of_string n)
   | ["G"; mmsi] -> QGet (z_of_string mmsi)
   | _ -> failwith ("bad op " ^ s)
@@ -50,21 +71,26 @@ let item_of (s : ostring) : item =
 let () = register "trk_run" (function
   | ordered :: ttl :: nattrs :: ops ->
     let na = nat_of_int (int_of_string nattrs) in
+    let (rules, ops) = match ops with
+      | b :: rest when String.length b >= 2 && String.sub b 0 2 = "B=" ->
+        (List.map rule_of (split '+' (String.sub b 2 (String.length b - 2))), rest)
+      | _ -> ([], ops) in
     let st = ref (trk_init (optz ttl) (ordered = "1")) in
     let out = List.map (fun s ->
       match item_of s with
-      | Op op ->
+      | Op (op, order) ->
         let before = !st in
-        let res = trk_step na before op in
-        st := res.r_state;
-        let calls = res.r_calls in
-        let dl = trk_deliver before.t_broker calls in
-        "E=" ^ (match res.r_exn with None -> "-" | Some e -> str_exn e)
+        let res = trkc_step na (trk_env_of rules order) before op in
+        st := res.rc_state;
+        let calls = res.rc_calls in
+        let dl = res.rc_deliv in
+        "E=" ^ (match res.rc_exn with None -> "-" | Some e -> str_exn e)
         ^ ";C=" ^ (if calls = [] then "_" else String.concat "," (List.map (fun (e, tr) -> str_ev e ^ "~" ^ str_track tr) calls))
         ^ ";D=" ^ (if dl = [] then "_" else
                    String.concat "," (List.map (fun ((cb, e), tr) -> string_of_z cb ^ "~" ^ str_ev e ^ "~" ^ str_track tr) dl))
-        ^ ";O=" ^ str_optz res.r_state.t_oldest
-        ^ ";T=" ^ str_tracks (trk_tracks res.r_state)
+        ^ ";R=" ^ (match res.rc_ret with None -> "N" | Some tr -> str_track tr)
+        ^ ";O=" ^ str_optz res.rc_state.t_oldest
+        ^ ";T=" ^ str_tracks (trk_tracks res.rc_state)
       | QLatest n -> "L=" ^ str_tracks (trk_n_latest_tracks !st n)
       | QGet m -> "G=" ^ (match trk_get_track !st m with None -> "N" | Some tr -> str_track tr)) ops in
     String.concat "|" out
